@@ -93,10 +93,10 @@ def emit_compare(h, mode, actual, expected, indent=""):
           '(member missing/extra, wrong key, wrong value or wrong order)");' % (actual, expected))
 
 
-def value_harness(name, prop, schema, var, desc, mode="canon", tiers=("quick", "thorough"), timeout=1500):
+def value_harness(name, prop, schema, var, desc, mode="canon", tiers=("quick", "thorough"), timeout=1500, symbool=True):
     """cbor_serialize of a stand-alone public serialisable type"""
     h = Harness(name, prop, desc, tiers=tiers, timeout=timeout, stub_utf8="assume")
-    var.symbool = True
+    var.symbool = symbool
     h.encode_side = True
     ctx = Ctx(h, var)
     m = schema.make(ctx, schema.name)
